@@ -4,24 +4,24 @@ HERE = os.path.dirname(os.path.dirname(os.path.abspath(__file__)))
 COVERS = {
  'C01': 'closed forms of `phi_1D_snm`, `phi_1D_genic` (interior, both regimes), dispatch h=0.5 -> genic, gamma=0 -> snm incl. beta; the 1-D kernel `implicit_1Dx` against the shared C contracts (V with beta, M, delj, a/b/c, solve, frame, bounds); one step of `one_pop` (influx then kernel, dt rule); `_one_pop_const_params` system (n=4)',
  'C02': 'contracts + lemmas for all of `integration_shared.c`, `tridiag.c`; 15 per-axis + 5 precalc kernels (system, frame, bounds); `Integration.py` one-step wiring of `one_pop..five_pops`; `_one_pop_const_params` (n=4,5) and `_two_pops_const_params` (3x3 grid, frozen variants) entry-wise equal to the kernel system with `_compute_delj` by contract; Python `_compute_delj` closed form; `.pyx` argument order',
- 'C03': 'rescaling lemmas over the C contracts (V, M, delj, a/b/c), `_compute_dt` on every path pair, each population\'s own (nu, m, gamma, h) handed to the step rule (1-5 D), influx amount = dt*theta0/2 per mutating population in trapezoid units for every flag pattern (1-5 D)',
+ 'C03': 'rescaling lemmas over the C contracts (V, M, delj, a/b/c), `_compute_dt` on every path pair, each population\'s own (nu, m, gamma, h) handed to the step rule (1-5 D), influx amount = dt*theta0/2 per mutating population in trapezoid units for every flag pattern (1-5 D), the 1-D and 2-D constant drivers build their system from V, M, Delta and delj *of the swept population*, `ensure_1arg_func`',
  'C04': '`Delta_k w_k = 1`, weighted column sums vanish, influx support and amount for every flag pattern (1-5 D), frozen+migration guard iff (2-5 D), absorbing-term placement / frame / line-digit clauses of every kernel',
- 'C05': '`Numerics.trapz` rule; `_from_phi_1D_direct` / `_2D_direct` entry-wise + total = trapezoid mass; `_from_phi_1D_analytic`, `cached_dbeta`, `_from_phi_{2,3,4,5}D_linalg` = tensor product of the exact piecewise-linear sampling operator with each axis\'s own sample size (betainc uninterpreted); `from_phi` dispatch, arguments, labels, extrap_x (1-4 D); inbreeding argument roles',
- 'C06': 'deposition law of `_admixture_intermediates` (n=3,4,5), destination-grid/axis roles of the 14 pulse functions, and every pulse function *executed* on a 2-point-per-axis grid against the bracket-deposition + trapezoid spec (helper by abstract result, fractions in population order)',
+ 'C05': '`Numerics.trapz` rule; `_from_phi_1D_direct` / `_2D_direct` entry-wise + total = trapezoid mass; `_from_phi_1D_analytic`, `cached_dbeta`, `_from_phi_{2,3,4,5}D_linalg` = tensor product of the exact piecewise-linear sampling operator with each axis\'s own sample size (betainc uninterpreted); `_from_phi_{2,3,4}D_admix_props` executed with a symbolic proportion matrix; `from_phi` dispatch, arguments, labels, extrap_x (1-4 D); inbreeding argument roles',
+ 'C06': 'deposition law of `_admixture_intermediates` (n=3,4,5), destination-grid/axis roles of the 14 pulse functions, every pulse function and every new-population constructor *executed* on a 2-point-per-axis grid against the bracket-deposition (+ trapezoid) spec (helper by abstract result, fractions in population order); `reorder_pops`, `remove_pop`, `filter_pops` on phi incl. mass conservation',
  'C07': 'Lagrange exactness k=2..6, dispatch of `make_extrap_func` (k=1..7, positional/keyword, log), fallback source',
  'C08': 'memo key injective, window = hypergeometric support, weight formula (gammaln axiom), refusal guards and fold wrapping of `project`; `_project_one_axis` entry-wise and mask-wise on 1-3-D shapes (weights by contract)',
  'C09': '`fold`/`unfold` entry-wise and mask-wise with every entry and mask bit symbolic (n=4, 5, (2,3)): total conserved, mirror-invariant, fold(unfold(fold x)) = fold x incl. masks, folded input refused; operator folding guard (iff); misidentification mix and wrapper',
- 'C10': '`reorder_pops` for every permutation of 2-4 populations; `combine_two_pops`, `Misc.combine_pops`, `marginalize` (any `over` order), `filter_pops` by explicit index arithmetic incl. labels, masks, totals',
- 'C11': '`ll_per_bin` formula and auto-fold on all paths, `ll`, `ll_multinom`, `optimal_sfs_scaling`, residual wiring; lemma: the optimal scaling maximises the Poisson likelihood (log axioms listed)',
+ 'C10': '`reorder_pops` for every permutation of 2-4 populations; `combine_two_pops`, `Misc.combine_pops`, `marginalize` (any `over` order), `filter_pops`, `scramble_pop_ids` by explicit index arithmetic incl. labels, masks, totals',
+ 'C11': '`ll_per_bin` formula and auto-fold on all paths, `ll`, `ll_multinom`, `optimal_sfs_scaling`, linear and Anscombe residuals (formula, sign, mask rule); lemma: the optimal scaling maximises the Poisson likelihood (log axioms listed)',
  'C12': 'all optimiser wrappers + `NLopt_mod.opt` (log transform of bounds/start/result, fixed parameters) + `_object_func` bound check + `perturb_params`',
  'C13': '`count_data_dict` classification; `_from_count_dict` = sum of count x outer product of projections (polarized filter / fold); `fragment_data_dict` partition and chunk windows for every chunk size in a range; `bootstraps_from_dd_chunks`; S/pi/Watterson/theta_L/Tajima_D closed forms; Fst = Weir-Cockerham with exact rational coefficients; S() frame',
- 'C14': 'pickle wiring; `to_file`: header text, logical (C-order) data and mask lines, format strings, gzip/plain open mode, close',
+ 'C14': 'pickle wiring; `to_file`: header text, logical (C-order) data and mask lines, format strings, gzip/plain open mode, close; `from_file` on the same header text (new, label-free and pre-1.3 formats): metadata round trip; generic `array_to_file` / `array_from_file`',
  'C15': '107 models well-formed, every parameter used, nesting table incl. last epochs, integrator axioms',
- 'C16': '`_sizes_at_time`, `_make_nu_func`, `_get_integration_parameters` (T, 2 Ne m, frozen flags, epoch order), `_migration_rate_in_interval`, `_integrate_phi` argument map 1-5 D, `_admix_phi` / `_admix_new_pop_phi` / `_split_phi` for every destination and source order (2-5 demes)',
- 'C17': '`PDFs.c:biv_lognormal`; `Cache1D.integrate`, `integrate_point_pos`; `Cache2D.integrate`: interior double trapezoid + the four edge marginals + three corner integrals with the documented integrand/range of every quad/dblquad call (asymmetric and symmetric shortcut)',
- 'C18': '`split_list_by_lengths`, `projection_inbreeding` (subsets with multiplicity), `probability_enough_individuals_covered` (binomial tail), `projection_matrix` rows (F=0 / F!=0), `probability_of_no_call_1D_GATK_multisample` closed form + definedness (no division by a quantity that can vanish), memo keys',
+ 'C16': '`_sizes_at_time`, `_make_nu_func`, `_get_integration_parameters` (T, 2 Ne m, frozen flags, epoch order), `_migration_rate_in_interval`, `_integrate_phi` argument map 1-5 D, `_admix_phi` / `_admix_new_pop_phi` / `_split_phi` for every destination and source order (2-5 demes), `_apply_event` dispatch and deme order, name inheritance of the export through Split/Remove/Reorder',
+ 'C17': '`PDFs.c:biv_lognormal`; `Cache1D.integrate`, `integrate_point_pos`; `Cache2D.integrate`: interior double trapezoid + the four edge marginals + three corner integrals with the documented integrand/range of every quad/dblquad call (asymmetric and symmetric shortcut; the missing both-deleterious corner is a known finding); `Vourlaki_mixture` as an exact linear combination of cached quantities',
+ 'C18': '`split_list_by_lengths`, `projection_inbreeding` (subsets with multiplicity), `probability_enough_individuals_covered` (binomial tail), `projection_matrix` rows (F=0 / F!=0), `probability_of_no_call_1D_GATK_multisample` closed form + definedness (no division by a quantity that can vanish), `part_inbreeding_probability` (multinomial x beta-binomial weights), memo keys',
  'C19': 'all stencils exact on every path, step rule, frame, definite assignment, multinom augmentation, `get_godambe` assembly (linear and log parameters, per-bootstrap theta adjustment), LRT/Wald/score formulas, mixture chi-square',
- 'C20': 'integrators work on a fresh C-contiguous copy and a contiguous grid (syntactic dataflow), memo keys of 6 caches injective, `perturb_params` frame',
+ 'C20': 'integrators work on a fresh C-contiguous copy and a contiguous grid (syntactic dataflow), memo keys of 6 caches injective, `perturb_params` frame, frame clauses of all 20 compiled kernels, `S()` mask frame',
 }
 rows = []
 for i in range(1, 21):
